@@ -91,7 +91,9 @@ func runNtlmHistory(db []authconfig.UserConfig, ops []nop) string {
 				ch = selfChallenge()
 			}
 			c := ntlm.V2ClientSession{}
-			c.SetUserInfo(o.user, o.pw, "")
+			// the domain a client names is part of its response key; the verifier must follow it (a client that
+			// knows the password is authenticated whatever domain it sends)
+			c.SetUserInfo(o.user, o.pw, []string{"", "CORP", "WORKGROUP"}[(i+len(o.user))%3])
 			cm, err := ntlm.ParseChallengeMessage(ch)
 			if err != nil {
 				outs = append(outs, "HARNESS-ERROR")
